@@ -26,7 +26,11 @@ def main():
     os.rmdir(wt)
     res = dict(seed=sd, props=props)
     try:
-        rc, out = sh(["git", "-C", "/repo", "worktree", "add", "-q", "--detach", wt, "HEAD"])
+        for attempt in range(10):   # concurrent evaluations contend for /repo's worktree lock
+            rc, out = sh(["git", "-C", "/repo", "worktree", "add", "-q", "--detach", wt, "HEAD"])
+            if rc == 0:
+                break
+            time.sleep(1 + attempt)
         assert rc == 0, out
         # the demo command was written for the author's own worktree: re-root it on the scratch worktree
         import re
@@ -60,7 +64,8 @@ def main():
         for p in props:
             t0 = time.time()
             e2 = dict(os.environ, WTF_REPO=wt, VERIF_TIER=tier)
-            rc, out = sh(["/verif/check", p, "--tier", tier], cwd="/verif", env=e2, timeout=7200)
+            V = os.path.dirname(os.path.dirname(os.path.abspath(__file__)))   # the /verif tree this tool lives in (an evaluation clone when run from one)
+            rc, out = sh([os.path.join(V, "check"), p, "--tier", tier], cwd=V, env=e2, timeout=7200)
             lines = [l for l in out.split("\n") if l.startswith("VIOLATION") or l.startswith("OK ") or l.startswith("KNOWN-FINDING")]
             rp = None
             for l in lines:
